@@ -115,7 +115,7 @@ def dccStep (s : DState) (t : List String) : DState × String :=
   | ["g", "adm", t, ton] =>
     match rat? t, rat? ton with
     | some t, some ton =>
-      let (g', r) := admit codeCfg s.g t ton
+      let (g', r) := admitPkt codeCfg s.g t ton
       let rs := match r with
         | .admitted => "admitted" | .rejected => "rejected" | .valueError => "ValueError"
         | .zeroDiv => "ZeroDivisionError" | .done => "done"
